@@ -109,6 +109,12 @@ def precOps (stat : Bool) (line : String) : String :=
             match rOrds.find? (fun u => !(pm.onGrid u)) with
             | some u => s!"bad offgrid {hex64 u} makePrecise={hex64 (pm.makePreciseBits u)}"
             | none =>
+            -- GEOSGeom_getPrecision_r of a setPrecision result: 1.0 / scale of the model the result carries
+            let precTok := tx.find? (·.startsWith "prec=")
+            let precBad : Bool := match precTok with
+              | some t => (t.drop 5).toString != hex64 (encode (divF one pm.scale))
+              | none => false
+            if precBad then s!"bad getPrecision expected={hex64 (encode (divF one pm.scale))} {precTok.getD ""}" else
             let pointw := isSP && fl % 2 == 1
             let keep := isSP && (fl / 2) % 2 == 1 && !pointw
             if pointw then
